@@ -330,65 +330,56 @@ def replay_calls(job):
 A, C, G, T = 0, 1, 2, 3
 OPEN = ("open",)
 INVALID = ("invalid",)
-BAND = 1e-9
 
 
 def _val(x):
     return ("value", float(x)) if math.isfinite(x) else INVALID
 
 
-def _log_arg(x):
-    """ln(x) is defined / undefined / too close to call"""
-    if abs(x) <= BAND:
-        return None
-    return x > 0
+EST_OF = {"pdist": "pdist", "hamming": "pdist", "jc69": "jc69", "tn93": "tn93",
+          "paralinear": "det", "logdet": "det", "logdet_eqfreq": "det"}
 
 
-def formula(calc, cnt, total, diff, jc_defined):
-    """The published estimator applied to TLC's exact statistics (the numeric leaf)."""
+def formula(calc, p):
+    """The published estimator applied to TLC's exact statistics (the numeric leaf).
+
+    Whether the pair lies in the estimator's domain is NOT decided here: p["cls"][estimator] is the
+    exact classification made by Distance.tla (defined | boundary | outside | undefined | degenerate);
+    boundary, outside and undefined pairs are invalid, degenerate ones are left open.
+    """
+    cnt, total, diff = p["cnt"], p["total"], p["diff"]
+    cls = p["cls"][EST_OF[calc]]
     if calc == "hamming":
         return ("value", float(diff)) if total else OPEN  # no comparable column: statement silent
-    if total == 0:
+    if cls == "degenerate":
+        return OPEN
+    if cls != "defined":
         return INVALID
     n = float(total)
-    p = diff / n
+    pd = diff / n
     if calc == "pdist":
-        return ("value", p)
+        return ("value", pd)
     if calc == "jc69":  # Jukes & Cantor 1969: d = -3/4 ln(1 - 4p/3)
-        return ("value", -0.75 * math.log(1 - 4 * p / 3)) if jc_defined else INVALID
+        return _val(-0.75 * math.log(1 - 4 * pd / 3))
     M = numpy.array(cnt, dtype=float)
     fx = M.sum(axis=1) / n
     fy = M.sum(axis=0) / n
     if calc == "tn93":  # Tamura & Nei 1993, eq. 7
         g = (fx + fy) / 2
-        if min(g) == 0:
-            return OPEN  # a coefficient of the formula is 0/0
         gR, gY = g[A] + g[G], g[C] + g[T]
         P1 = (M[A, G] + M[G, A]) / n
         P2 = (M[C, T] + M[T, C]) / n
-        Q = p - P1 - P2
+        Q = pd - P1 - P2
         k1 = 2 * g[A] * g[G] / gR
         k2 = 2 * g[C] * g[T] / gY
         k3 = 2 * (gR * gY - g[A] * g[G] * gY / gR - g[C] * g[T] * gR / gY)
         a1 = 1 - P1 / k1 - Q / (2 * gR)
         a2 = 1 - P2 / k2 - Q / (2 * gY)
         a3 = 1 - Q / (2 * gR * gY)
-        oks = [_log_arg(a) for a in (a1, a2, a3)]
-        if None in oks:
-            return OPEN
-        if not all(oks):
-            return INVALID
         return _val(-k1 * math.log(a1) - k2 * math.log(a2) - k3 * math.log(a3))
-    # LogDet family: J = joint frequency matrix
-    if min(M.diagonal()) == 0:
-        return OPEN  # cogent3 substitutes pseudo-counts here; not a published estimator
+    # LogDet family: J = joint frequency matrix, det J > 0 by the classification
     J = M / n
     det = float(numpy.linalg.det(J))
-    ok = _log_arg(det)
-    if ok is None:
-        return OPEN
-    if not ok:
-        return INVALID
     r = 4
     if calc == "paralinear":  # Lake 1994
         return _val(-math.log(det / math.sqrt(fx.prod() * fy.prod())) / r)
@@ -450,6 +441,9 @@ def _run_entry(entry, calc, aln):
             return aln.distance_matrix(calc=real_calc)
         except ArithmeticError:
             return "ArithmeticError"
+    if entry == "aln.distance_matrix(drop_invalid)":
+        r = aln.distance_matrix(calc=real_calc, drop_invalid=True)
+        return "None" if r is None else r
     if entry == "app.fast_slow_dist":
         app = _ENTRIES.get(("fsd", real_calc))
         if app is None:
@@ -471,6 +465,7 @@ ENTRY_CALCS = {
     "calculator": CALCS,
     "calculator.run(aln)": CALCS,
     "aln.distance_matrix": [c for c in CALCS if c != "logdet_eqfreq"],
+    "aln.distance_matrix(drop_invalid)": [c for c in CALCS if c != "logdet_eqfreq"],
     "app.fast_slow_dist": [c for c in CALCS if c != "logdet_eqfreq"],
 }
 
@@ -503,7 +498,7 @@ def replay_distance(job):
         variants = [("as-emitted", list(range(ncol)))]
         if plan == "full" and colperm != variants[0][1]:
             variants.append(("columns-shuffled", colperm))
-        array_align = (ri // 4) % 4 != 3  # the Alignment class builds an annotation db per sequence: 1 in 4
+        array_align = (ri // len(ENTRIES)) % 4 != 3  # the Alignment class builds an annotation db per sequence: 1 in 4
         for vname, cp in variants:
             data = {names[k]: "".join(rows[k][c] for c in cp) for k in range(ns)}
             aln = make_aligned_seqs(data, moltype="dna", array_align=array_align)
@@ -511,10 +506,10 @@ def replay_distance(job):
                 todo = [(e, c) for e, cs in ENTRY_CALCS.items() for c in cs
                         if vname == "as-emitted" or e == "calculator"]
             else:
-                todo = [(ENTRIES[ri % 4], c) for c in SMALL_CALCS]
+                todo = [(ENTRIES[ri % len(ENTRIES)], c) for c in SMALL_CALCS]
             for entry, calc in todo:
                 calls += 1
-                expd = {k: formula(calc, p["cnt"], p["total"], p["diff"], p["jc"]) for k, p in pairs.items()}
+                expd = {k: formula(calc, p) for k, p in pairs.items()}
                 for k, p in pairs.items():
                     if p["total"] == 0 and p["same"]:
                         expd[k] = OPEN  # equal sequences without a valid column: 0 by identity or undefined
@@ -524,14 +519,52 @@ def replay_distance(job):
                 except Exception as ex:
                     fails.append((f"dist:{calc}:{entry}:raised", {**detail, "observed": repr(ex)}))
                     continue
+                anyopen = any(e == OPEN for e in expd.values())
+                invalid_pairs = [k for k, e in expd.items() if e == INVALID]
+                classes = {f"{k[0]}-{k[1]}": pairs[k]["cls"][EST_OF[calc]] for k in pairs}
+                if entry == "aln.distance_matrix":
+                    # invalid_raises: ArithmeticError exactly when some distance cannot be computed
+                    if isinstance(dm, str):
+                        nopen += 1
+                        if not invalid_pairs and not anyopen:
+                            fails.append((f"dist:{calc}:{entry}:raised-ArithmeticError-for-computable",
+                                          {**detail, "classes": classes}))
+                        continue
+                    if invalid_pairs:
+                        fails.append((f"dist:{calc}:{entry}:{_boundary_class(pairs, invalid_pairs, calc)}:did-not-raise",
+                                      {**detail, "classes": classes, "observed": repr(_matrix_values(dm, names))}))
+                        continue
+                if entry == "aln.distance_matrix(drop_invalid)":
+                    # every sequence of an invalid pair is dropped; fewer than two left -> None
+                    if anyopen:
+                        nopen += 1
+                        if not isinstance(dm, str):
+                            _no_inf(fails, calc, entry, detail, _matrix_values(dm, names))
+                        continue
+                    gone = set(rec["to"]["dropped"][EST_OF[calc]])
+                    keep = [k for k in range(1, ns + 1) if k not in gone]
+                    got = [] if isinstance(dm, str) else sorted(names.index(str(x)) + 1 for x in dm.names)
+                    if len(keep) <= 1:
+                        keep = []
+                    compared += 1
+                    if got != keep:
+                        fails.append((f"dist:{calc}:{entry}:{_boundary_class(pairs, invalid_pairs, calc)}:wrong-sequences-dropped",
+                                      {**detail, "classes": classes, "expected_kept": keep, "observed_kept": got}))
+                        continue
+                    if isinstance(dm, str):
+                        continue
+                    vals = _matrix_values(dm, names)
+                    _no_inf(fails, calc, entry, detail, vals)
+                    for (i, j), e in expd.items():
+                        if i in keep and j in keep and not agrees(e, vals.get((i, j), float("nan"))):
+                            fails.append((f"dist:{calc}:{entry}:value", {**detail, "pair": [i, j], "expected": repr(e),
+                                                                        "observed": vals.get((i, j))}))
+                    continue
                 if isinstance(dm, str):
-                    # ArithmeticError is the documented outcome when some distance cannot be computed
-                    nopen += 1
-                    if not any(e in (INVALID, OPEN) for e in expd.values()):
-                        fails.append((f"dist:{calc}:{entry}:raised-ArithmeticError-for-computable",
-                                      {**detail, "expected": repr(expd)}))
+                    fails.append((f"dist:{calc}:{entry}:raised", {**detail, "observed": dm}))
                     continue
                 vals = _matrix_values(dm, names)
+                _no_inf(fails, calc, entry, detail, vals)
                 for i in range(1, ns + 1):
                     for j in range(1, ns + 1):
                         v = vals.get((i, j))
@@ -557,12 +590,25 @@ def replay_distance(job):
                             continue
                         d2 = {**detail, "pair": [i, j], "count_matrix_ACGT": p["cnt"], "expected": repr(e), "observed": v}
                         d2["shortcut_source"] = p["src"]  # where run/_expand take this pair's value from (Distance.tla)
-                        cls = ("expected-invalid-got-value" if e == INVALID else
+                        d2["class"] = p["cls"][EST_OF[calc]]
+                        cls = (f"{p['cls'][EST_OF[calc]]}-pair-got-value" if e == INVALID else
                                "expected-value-got-invalid" if math.isnan(v) else "value")
                         cols = "canonical-columns" if rec["to"]["canonical"] else "noncanonical-columns"
                         fails.append((f"dist:{calc}:{entry}:{cols}:{cls}" +
                                       ("" if vname == "as-emitted" else ":column-order"), d2))
     return calls, compared, nopen, _thin(fails)
+
+
+def _no_inf(fails, calc, entry, detail, vals):
+    """an invalid distance is nan; no returned matrix may hold +-inf"""
+    bad = [list(k) for k, v in vals.items() if math.isinf(v)]
+    if bad:
+        fails.append((f"dist:{calc}:{entry}:infinite-entry", {**detail, "pairs": bad}))
+
+
+def _boundary_class(pairs, invalid_pairs, calc):
+    cl = sorted({pairs[k]["cls"][EST_OF[calc]] for k in invalid_pairs})
+    return "+".join(cl) or "none"
 
 
 def _thin(fails, per_key=3):
